@@ -33,5 +33,17 @@ CLAIMS["C05"] = {
     "text": "Same handler-level inductive step with the money-follows-lifecycle clauses: lease active iff its payment is open, bid open/matched iff its deposit account is open, deployment active iff its escrow account is open, checked after every accepted message including overdraft hooks and several actions in one block (height gap 0 is inside the symbolic range); plus the keeper-level hook obligations of the escrow step.",
     "note": CHAIN_NOTE,
 }
+CLAIMS["C06"] = {
+    "text": "Four solver-decided parts: (1) GetSigners of all 19 message types on arbitrary symbolic addresses returns exactly the party the statement assigns; (2) in the handler-level and escrow-level inductive steps only the signer's balance can decrease and only the signer pays into escrow; (3) frame: every record and escrow balance of a bystander deployment whose number collides as a decimal prefix (1 vs 12) is unchanged by every handler; (4) key separation on the real key-building code with fully symbolic identifiers: a key lies under a prefix iff it belongs to that parent, keys are injective, key spaces are disjoint (market, deployment, escrow with 1..3-digit decimal ids, audit, cert).",
+    "note": CHAIN_NOTE + " Bit-vector encoding for sequence numbers through encoding/binary; decimal ids are arbitrary canonical digit strings (1..3 digits quick, 1..5 thorough).",
+}
+CLAIMS["C07"] = {
+    "text": "Determinism as a 2-run self-composition decided by the solver: the same message is executed twice from the same symbolic state on forked contexts, every Go map range inside the code under test becomes a choice point explored in all orders independently for both runs, and state, result, events and transfers must be equal: all deployment/market handlers (no choice point is met) and the two audit-keeper operations that range over maps (all permutations of <=3 entries).",
+    "note": "Trusted: engine SSA semantics incl. the real sort algorithms; map order is the only non-determinism source modelled (time, randomness, goroutines are not reachable from the handlers: reaching one ends the path unsupported and is reported). Native confirmation of a counterexample repeats the real execution up to 64 times because Go's map order cannot be forced.",
+}
+CLAIMS["C16"] = {
+    "text": "In the handler-level inductive step the real EventManager's events are decoded with the provider's own parsers (sdk.StringifyEvent, sdkutil.ParseEvent, market/deployment ParseEvent) and compared with the pre/post difference of every record: created/closed/paused/started/updated events are emitted exactly once for exactly the objects that changed that way (including changes made inside escrow hooks), carry the object's id and price, and every emitted marketplace event decodes.",
+    "note": CHAIN_NOTE + " Prices are symbolic (decimal formatting/parsing modelled as mutually inverse); identifiers in events are the concrete universe ids. Provider and audit events are not covered.",
+}
 NOT_APPLICABLE = {}
 NOTES = "Work in progress: checks are added property by property; see DESIGN.md §9 for deviations from the plan."
